@@ -108,6 +108,23 @@ func init() {
 		has := o.And(o.Le(o.Int(k), s.Len), x.seqEq(tail, x.constString(suf.Alts[0].S)))
 		return StrVal{Arr: s.Arr, Off: s.Off, Len: o.Ite(has, o.Sub(s.Len, o.Int(k)), s.Len)}
 	}
+	extSchemas["strings.ToLower"] = func(x *Exec, st *State, fn *ssa.Function, args []Val, c *ssa.CallCommon) Val {
+		// The lowered string is only ever compared with ASCII literals: ToLower(s) == lit  iff  s equals lit ignoring
+		// ASCII case (true for literals of lower-case ASCII letters other than k and s, whose Unicode case orbits are
+		// larger). The result is an opaque string remembered as "the lowering of s".
+		o := x.o
+		s := args[0].(StrVal)
+		seq := x.callSeq
+		x.callSeq++
+		l := o.Fresh(fmt.Sprintf("tolower%d.len", seq), o.IdxSort())
+		x.assumeLen(l)
+		r := StrVal{Arr: o.Fresh(fmt.Sprintf("tolower%d.arr", seq), o.ByteArr()), Off: o.Idx(0), Len: l}
+		if x.lowerOf == nil {
+			x.lowerOf = map[*Term]StrVal{}
+		}
+		x.lowerOf[r.Arr] = s
+		return r
+	}
 	extSchemas["strings.TrimLeft"] = schemaTrimLeft
 	extSchemas["strings.Compare"] = schemaStringsCompare
 	extSchemas["(*sync.Mutex).Lock"] = schemaMutexLock
